@@ -329,7 +329,9 @@ class Evaluator:
                 self.assign(g.target, x)
                 if all(self.truth(c) for c in g.ifs):
                     rec(i + 1)
-            self.env = saved
+            # restore in place: the environment object is shared (module-level evaluation, closures)
+            self.env.clear()
+            self.env.update(saved)
 
         rec(0)
         return out
@@ -413,6 +415,10 @@ class Evaluator:
                     return {"list": list, "tuple": tuple, "set": set, "dict": dict, "OrderedDict": dict, "frozenset": frozenset}[f.id](*args)
                 if f.id == "str":
                     return str(args[0])
+                if f.id in ("ord", "chr", "hex", "oct", "bin", "repr", "round", "divmod", "pow") and f.id not in self.env and not e.keywords:
+                    if f.id == "repr" and not isinstance(args[0], (str, int, float, bool, type(None), tuple, list)):
+                        raise Unknown("repr of a value outside the finite domain")
+                    return {"ord": ord, "chr": chr, "hex": hex, "oct": oct, "bin": bin, "repr": repr, "round": round, "divmod": divmod, "pow": pow}[f.id](*args)
                 if f.id == "zip":
                     return list(zip(*args))
                 if f.id == "enumerate":
